@@ -812,7 +812,10 @@ func (s *State) applyFunction(name string, fn object.Object, args []object.Objec
 	if function.Name != nil {
 		memoKey = function.Name.Literal() + " " + memoKey
 	}
-	if v, output, ok := s.cache.Get(memoKey, args); ok {
+	// A function made by a call (a closure) is not looked up by its text: another one of the same text captures
+	// other variables, and so may a top level function of that text whose free names are globals.
+	closure := function.Env != nil && function.Env != s.rootEnv
+	if v, output, ok := s.cache.Get(memoKey, args); ok && !closure {
 		log.Debugf("Cache hit for %s %v -> %#v", function.CacheKey, args, v)
 		if len(output) > 0 {
 			_, err := s.Out.Write(output)
@@ -874,6 +877,9 @@ func (s *State) applyFunction(name string, fn object.Object, args []object.Objec
 	// Nor what was computed while the deadline expired or the evaluation was cancelled (catch() may have turned
 	// that error into a value).
 	if s.Context != nil && s.Context.Err() != nil {
+		return res
+	}
+	if closure {
 		return res
 	}
 	s.cache.Set(memoKey, args, res, output)
